@@ -139,7 +139,10 @@ class RelativeValueIteration(ValueIteration):
     def _initialize_solver_state_elements(self) -> None:
         """Initialize solver state elements."""
         super()._initialize_solver_state_elements()
-        self.gain = 0.0
+        # The gain estimate is carried in the last component of the values:
+        # start it from the initial value estimates so that the first sweep
+        # subtracts the same reference as every later sweep
+        self.gain = float(self.values[-1])
 
     def _iteration_step(self) -> tuple[ValueFunction, float]:
         """Perform one iteration of the solution algorithm.
